@@ -729,6 +729,14 @@ func (r *runner) instantiate(twisted bool) {
 		}
 		return true
 	}
+	// a compatible module may be instantiated under a name that is TAKEN: it must fail and, having never
+	// existed, leave no trace in the objects it would have shared (segments not applied, start not run)
+	instName, dupName := s.name, false
+	if lv := r.live(); wantOK && len(lv) > 0 && r.t.Chance(1, 10) {
+		instName, dupName = lv[r.t.Choose(len(lv))].name, true
+		wantOK, why = false, "the name is taken by an open module"
+		r.res.Stat("fault.instantiation_under_a_taken_name", 1)
+	}
 	if wantOK {
 		wantOK = effects()
 		if !wantOK {
@@ -739,7 +747,7 @@ func (r *runner) instantiate(twisted bool) {
 	if err != nil {
 		panic(fmt.Sprintf("harness: generated module does not compile: %v\n%s", err, s.describe()))
 	}
-	mod, err := r.rt.InstantiateModule(r.ctx, cm, wazero.NewModuleConfig().WithName(s.name))
+	mod, err := r.rt.InstantiateModule(r.ctx, cm, wazero.NewModuleConfig().WithName(instName))
 	// (the error text is not logged: with several imports wazero reports whichever it meets first, in map order)
 	r.res.Logf("%s -> failed=%v (model: ok=%v %s)", what, err != nil, wantOK, why)
 	if (err == nil) != wantOK {
@@ -765,7 +773,7 @@ func (r *runner) instantiate(twisted bool) {
 	if err != nil {
 		r.res.Stat("fault.failed_instantiation", 1)
 		// the name must be free again
-		if r.rt.Module(s.name) != nil {
+		if !dupName && r.rt.Module(s.name) != nil {
 			r.res.Fail("failed-instantiation-leaks", "%s failed but the name %s is still registered", what, s.name)
 		}
 		return
